@@ -2226,8 +2226,8 @@ mod c19_corr {
                     None => continue,
                 },
             };
-            let (a, b): (M, M) = match (serde_json::from_value(v.clone()), serde_json::from_value(w.clone())) {
-                (Ok(a), Ok(b)) => (a, b),
+            let (a, b): (M, M) = match (guard(|| serde_json::from_value(v.clone())), guard(|| serde_json::from_value(w.clone()))) {
+                (Ok(Ok(a)), Ok(Ok(b))) => (a, b),
                 _ => continue,
             };
             // one direction per pair (chosen at random), both for the identical pair
